@@ -118,7 +118,29 @@ fn misbound_hole(m: &MultiPolygon<f64>, tol: f64) -> Option<&'static str> {
                 // than its own two incident edges: the hole touches itself, another hole or an island there
                 let visits: usize = m.0.iter().flat_map(|p2| std::iter::once(p2.exterior()).chain(p2.interiors().iter()))
                     .map(|r| r.0.windows(2).filter(|w| pt_seg((least.x, least.y), (w[0].x, w[0].y), (w[1].x, w[1].y)) <= tol).count()).sum();
-                return Some(if visits > 2 { "least-vertex-is-a-touch-point" } else { "other" });
+                if visits > 2 {
+                    return Some("least-vertex-is-a-touch-point");
+                }
+                // ... or the first boundary point straight under that vertex (the engine looks for the nearest segment under the
+                // anchor to find the parent shape) is one: three or more ring segments of the result meet there
+                let mut under: Vec<f64> = vec![];
+                for r in m.0.iter().flat_map(|p2| std::iter::once(p2.exterior()).chain(p2.interiors().iter())) {
+                    for w in r.0.windows(2) {
+                        let (a, b) = ((w[0].x, w[0].y), (w[1].x, w[1].y));
+                        // (like the engine's scan, only segments that extend to the right of the anchor's abscissa count)
+                        if pt_seg((least.x, least.y), a, b) <= tol || least.x < a.0.min(b.0) - tol || least.x >= a.0.max(b.0) - tol {
+                            continue;
+                        }
+                        // ordinate(s) of the segment on the vertical line through the anchor
+                        let ys: Vec<f64> = if (b.0 - a.0).abs() <= tol { vec![a.1, b.1] } else { vec![a.1 + (b.1 - a.1) * (least.x - a.0) / (b.0 - a.0)] };
+                        if let Some(y) = ys.into_iter().filter(|y| *y < least.y - tol).fold(None, |m: Option<f64>, y| Some(m.map_or(y, |v| v.max(y)))) {
+                            under.push(y);
+                        }
+                    }
+                }
+                let top = under.iter().cloned().fold(f64::NEG_INFINITY, f64::max);
+                let meeting = under.iter().filter(|y| (**y - top).abs() <= tol).count();
+                return Some(if meeting >= 3 { "touch-point-straight-under-least-vertex" } else { "other" });
             }
         }
     }
@@ -127,6 +149,57 @@ fn misbound_hole(m: &MultiPolygon<f64>, tol: f64) -> Option<&'static str> {
 /// even-odd parity over every ring of the result: the covered region whichever shell each hole is bound to
 fn in_mp_parity(m: &MultiPolygon<f64>, x: f64, y: f64) -> bool {
     m.0.iter().flat_map(|p| std::iter::once(p.exterior()).chain(p.interiors().iter())).filter(|r| in_ring(r, x, y)).count() % 2 == 1
+}
+/// Does the overlay ENGINE itself (i_overlay, called exactly the way geo calls it: rings as implicitly closed paths, same
+/// rule and fill rule) group a hole under a shape whose first path does not contain it? Used only to attribute a
+/// mis-grouped hole in geo's result: if the engine groups it the same way the defect is the engine's (known finding),
+/// if the engine groups it right the re-packaging in geo is at fault (VIOLATION).
+fn engine_misbinds(subj: &MultiPolygon<f64>, clip: Option<&MultiPolygon<f64>>, op: Option<OpType>, tol: f64) -> bool {
+    use geo::algorithm::winding_order::{Winding, WindingOrder};
+    use i_overlay::core::fill_rule::FillRule;
+    use i_overlay::core::overlay_rule::OverlayRule;
+    use i_overlay::float::overlay::FloatOverlay;
+    use i_overlay::float::single::SingleFloatOverlay;
+    // geo's ring_to_shape_path: drop the closing coordinate and every further trailing copy of the first one
+    let path = |ls: &LineString<f64>| -> Vec<[f64; 2]> {
+        if ls.0.is_empty() {
+            return vec![];
+        }
+        let first = ls.0[0];
+        let mut len = ls.0.len() - 1;
+        while len > 1 && ls.0[len] == first && ls.0[len - 1] == first {
+            len -= 1;
+        }
+        ls.0[..len].iter().map(|c| [c.x, c.y]).collect()
+    };
+    let rings = |m: &MultiPolygon<f64>| -> Vec<Vec<[f64; 2]>> { m.0.iter().flat_map(|p| std::iter::once(p.exterior()).chain(p.interiors().iter())).map(|r| path(r)).collect() };
+    let subject = rings(subj);
+    let shapes: Vec<Vec<Vec<[f64; 2]>>> = match (clip, op) {
+        (Some(c), Some(op)) => {
+            let rule = match op { OpType::Intersection => OverlayRule::Intersect, OpType::Union => OverlayRule::Union, OpType::Difference => OverlayRule::Difference, OpType::Xor => OverlayRule::Xor };
+            subject.overlay(&rings(c), rule, FillRule::EvenOdd)
+        }
+        _ => {
+            // unary_union: fill rule from the first ring that has a winding
+            let first = subj.0.iter().flat_map(|p| std::iter::once(p.exterior()).chain(p.interiors().iter())).find_map(|r| r.winding_order());
+            let fill = if first == Some(WindingOrder::Clockwise) { FillRule::Positive } else { FillRule::Negative };
+            FloatOverlay::with_subj(&subject).overlay(OverlayRule::Subject, fill)
+        }
+    };
+    for sh in &shapes {
+        if sh.len() < 2 {
+            continue;
+        }
+        let close = |p: &Vec<[f64; 2]>| -> LineString<f64> { let mut v: Vec<geo::Coord<f64>> = p.iter().map(|q| geo::Coord { x: q[0], y: q[1] }).collect(); if let Some(f) = v.first().copied() { v.push(f); } LineString::new(v) };
+        let ext = close(&sh[0]);
+        let esegs: Vec<((f64, f64), (f64, f64))> = ext.0.windows(2).map(|w| ((w[0].x, w[0].y), (w[1].x, w[1].y))).collect();
+        for h in &sh[1..] {
+            if h.iter().any(|q| !in_ring(&ext, q[0], q[1]) && esegs.iter().map(|sg| pt_seg((q[0], q[1]), sg.0, sg.1)).fold(f64::INFINITY, f64::min) > tol) {
+                return true;
+            }
+        }
+    }
+    false
 }
 fn pt_seg(p: (f64, f64), a: (f64, f64), b: (f64, f64)) -> f64 {
     let (dx, dy) = (b.0 - a.0, b.1 - a.1);
@@ -293,7 +366,13 @@ impl Property for C04 {
             //     even-odd parity over all rings (the covered region whichever shell owns each hole)
             let misbound = misbound_hole(&r, 4.0 * delta_l * s);
             if let Some(class) = misbound {
-                obs.fail(format!("{name}|hole-outside-its-shell|{class}"), format!("result {:?}; {}", r, ctx()));
+                // whose grouping is it? (the geometric class is kept in the message)
+                let blame = match guard(std::panic::AssertUnwindSafe(|| engine_misbinds(&ga, Some(&gb), Some(*op), 4.0 * delta_l * s))) {
+                    Ok(true) => "engine-groups-it-so",
+                    Ok(false) => "engine-groups-it-right",
+                    Err(_) => "engine-probe-panicked",
+                };
+                obs.fail(format!("{name}|hole-outside-its-shell|{blame}"), format!("({class}) result {:?}; {}", r, ctx()));
             }
             // (1) membership of robust cell samples
             let mut bad = None;
@@ -377,7 +456,13 @@ impl Property for C04 {
                         obs.expect((got - want_area).abs() <= area_tol, "unary_union|area", || format!("got {got} want {want_area}; members {:?}; {}", members, ctx()));
                         let misbound = misbound_hole(&u, 4.0 * delta_l * s);
                         if let Some(class) = misbound {
-                            obs.fail(format!("unary_union|hole-outside-its-shell|{class}"), format!("result {:?}; {}", u, ctx()));
+                            let all = MultiPolygon::new(members.clone());
+                            let blame = match guard(std::panic::AssertUnwindSafe(|| engine_misbinds(&all, None, None, 4.0 * delta_l * s))) {
+                                Ok(true) => "engine-groups-it-so",
+                                Ok(false) => "engine-groups-it-right",
+                                Err(_) => "engine-probe-panicked",
+                            };
+                            obs.fail(format!("unary_union|hole-outside-its-shell|{blame}"), format!("({class}) result {:?}; {}", u, ctx()));
                         }
                         // winding and closure of the result, as for the binary operations
                         for p in &u.0 {
